@@ -258,6 +258,11 @@ def _locate_droplets_in_mask_cylindrical_single(
         else:
             _logger.warning("Found object not located on symmetry axis")
 
+    if not indices:
+        # there are clusters, but none of them touches the symmetry axis
+        example_drop = SphericalDroplet(np.zeros(grid.dim), radius=0)
+        return Emulsion.empty(example_drop)
+
     # determine position from binary image and scale it to real space
     pos = ndimage.center_of_mass(mask, labels, index=indices)
     pos = grid.transform(pos, "cell", "cartesian")
